@@ -449,8 +449,33 @@ func CheckC18(c *Ctx) {
 		v := api.Ver
 		var src []string
 		gen.Cover(c.Rand("cover", v.Name), v, false, func(a spec.Assign) { src = append(src, v.Canonical(a)) })
+		// SHAPE-complete sources: every set of at most 4 (v4: 3; thorough 5 / 4) optional metrics defined, with seeded
+		// values over a seeded base -- the error for one defect must not depend on WHICH optional metrics are present
+		{
+			rs := c.Rand("shapes", v.Name)
+			k := c.Pick(4, 5)
+			if v.ID == spec.V40 {
+				k = c.Pick(3, 4)
+			}
+			for _, sub := range gen.SparseSubsets(v, k) {
+				a := gen.KSparseAssign(rs, v, 0)
+				for _, m := range sub {
+					a[m] = uint8(1 + rs.Intn(len(v.Metrics[m].Values)-1))
+				}
+				if v.ID == spec.V30 || v.ID == spec.V31 {
+					if rs.Bool() {
+						sp, _ := gen.RandomSpelling(rs, v, a)
+						src = append(src, sp)
+						continue
+					}
+				}
+				src = append(src, v.Canonical(a))
+			}
+			c.Extra["shape_complete_sources_v"+v.Name] = len(gen.SparseSubsets(v, k))
+		}
 		r := c.Rand("valid", v.Name)
-		for len(src) < c.Pick(4000, 200_000) {
+		nsrc := len(src) + c.Pick(4000, 200_000)
+		for len(src) < nsrc {
 			a := gen.MixedAssign(r, v)
 			if v.ID == spec.V30 || v.ID == spec.V31 {
 				// any order
@@ -481,7 +506,15 @@ func CheckC18(c *Ctx) {
 					return
 				}
 				if err == nil || o != nil {
-					return // acceptance of an ill-formed string is C01's; nothing to judge about the error value
+					// the statement says which error a vector with this defect YIELDS: no error at all is not that error
+					// (C01 reports the same string as accepted-ill-formed)
+					want := d.want.String()
+					if d.abv != "" {
+						want += "{" + d.abv + "}"
+					}
+					c.Violate(Violation{Kind: "defect-not-reported", Version: v.Name, Steps: st, Expected: want + " for defect " + d.kind + " at element " + fmt.Sprint(d.pos) + " of " + s,
+						Observed: fmt.Sprintf("err=%v object-nil=%v", err, o == nil), Detail: map[string]any{"defect": d.kind, "site": d.site, "want": d.want.String()}})
+					return
 				}
 				got := api.Classify(err)
 				okk := got.Kind == d.want && (d.abv == "" || got.Abv == d.abv)
@@ -565,7 +598,7 @@ func CheckC18(c *Ctx) {
 		}
 	}
 	c.SetReport(Report{
-		Rule:        "defect injector with planted ground truth: for every element position of well-formed source vectors (pairwise cover + seeded random spellings) it plants exactly one defect -- illegal value (5 variants; also the element reduced to its abbreviation without a colon, and values containing a second colon), repeated metric (adjacent / at the end / random place, same or other value), unknown abbreviation inserted (6 variants, before the element and at the end; also colon-less tokens and the empty abbreviation) or replacing, misplaced (swap / move; v2,v4), missing base metric (v3), truncation at element boundaries inside a group that must be complete (v2,v4), header variants (v3,v4) -- and the returned error must be the documented value under errors.Is / errors.As (+Abv). Mutants the recogniser still accepts are dropped; defect kinds whose value the statement does not fix (empty v2 string, garbage glued to a v4 header, empty element) are not generated. Get/Set: complete hostile abbreviation x value matrix. distinct = distinct defective strings",
+		Rule:        "defect injector with planted ground truth: for every element position of well-formed source vectors (pairwise cover + EVERY set of at most 4 / v4: 3 optional metrics defined (thorough 5 / 4) + seeded random spellings) it plants exactly one defect -- illegal value (5 variants; also the element reduced to its abbreviation without a colon, and values containing a second colon), repeated metric (adjacent / at the end / random place, same or other value), unknown abbreviation inserted (6 variants, before the element and at the end; also colon-less tokens and the empty abbreviation) or replacing, misplaced (swap / move; v2,v4), missing base metric (v3), truncation at element boundaries inside a group that must be complete (v2,v4), header variants (v3,v4) -- and the returned error must be the documented value under errors.Is / errors.As (+Abv). Mutants the recogniser still accepts are dropped; defect kinds whose value the statement does not fix (empty v2 string, garbage glued to a v4 header, empty element) are not generated. Get/Set: complete hostile abbreviation x value matrix. distinct = distinct defective strings",
 		Assumptions: []string{"expected error per defect kind exactly as listed in C18's statement"},
 	})
 	c.Finish()
